@@ -316,13 +316,12 @@ def obligations(tier):
         nshort = 0
     if tier == "quick":
         ml, T = 3, 600
-        try:
-            for w in ("interval", "point", "name"):
-                obs.append(ob_long(w, ml, T))
-            for i in range(nshort):
-                obs.append(ob_short_field(i, ml, T))
-        except AssertionError as e:
-            obs.append(C02.ob_anchor_error("field-kernels", str(e)))
+        for w in ("interval", "point", "name"):
+            guard(obs, "long-" + w, lambda: ob_long(w, ml, T), FUNCS[:2])
+        for i in range(nshort):
+            guard(obs, "short-field-%d" % i, lambda: ob_short_field(i, ml, T), FUNCS[:2])
+        if nshort == 0:
+            obs.append(not_encoded("short-fields", "anchor missing: field-rendering expressions of the short writer", FUNCS[:2]))
         obs.append(ob_short_numrow(300))
         obs.append(ob_json_updown(2, 120))
         obs.append(ob_dict_object(2, 200))
@@ -330,22 +329,22 @@ def obligations(tier):
     else:
         obs.append(C04.ob_spans(3, 900))
         for w in ("interval", "point", "name"):
-            obs.append(ob_long(w, 3, 3400))
-            obs.append(ob_short(w, 2, 3400))
+            guard(obs, "long-" + w, lambda: ob_long(w, 3, 3400), FUNCS[:2])
+            guard(obs, "short-" + w, lambda: ob_short(w, 2, 3400), FUNCS[:2])
         for i in range(nshort):
-            obs.append(ob_short_field(i, 4, 3000))
+            guard(obs, "short-field-%d" % i, lambda: ob_short_field(i, 4, 3000), FUNCS[:2])
         obs.append(ob_short_numrow(1200))
-        obs.append(ob_fixed_point(2, 3400))
+        guard(obs, "fixed-point", lambda: ob_fixed_point(2, 3400), FUNCS[:2])
         for n in (0, 1, 2, 3):
             obs.append(ob_json_updown(n, 600))
         for k in (0, 1, 2, 3):
             obs.append(ob_dict_object(k, 900))
     obs.append(numtok.ob_numtostr())
     obs.append(numtok.ob_contract())
-    obs += numtok.obs_regex("writer")
-    obs.append(numtok.ob_strtoint("writer"))
+    guard(obs, "num-regex-writer", lambda: numtok.obs_regex("writer"), numtok.FN[1:2])
+    guard(obs, "num-strtoint-writer", lambda: numtok.ob_strtoint("writer"), numtok.FN[2:3])
     obs.append(ob_files_concrete())
-    obs.append(ob_long_elements_concrete())
+    guard(obs, "long-elements-concrete", lambda: ob_long_elements_concrete(), FUNCS[:2])
     obs.append(IO.ob_keywords_pass("C01"))
     obs += IO.obs_keywords_kf()
     return obs
